@@ -370,15 +370,16 @@ func (eng *Engine) translate(unit, mode string, fn *ssa.Function, fc *FuncContra
 	env := fr.newEnv(entry, entry)
 	fr.bindParams(env)
 	fr.entry = entry
-	env.resolve = func(name string) (TV, bool) {
+	fvResolve := func(name string, st *State) (TV, bool) {
 		for _, fv := range fn.FreeVars {
 			if fv.Name() == name {
-				l := fr.locOf(entry, "true", fv, false, token.NoPos)
-				return TV{term: fr.load(entry, l), typ: l.resultType(), loc: l}, true
+				l := fr.locOf(st, "true", fv, false, token.NoPos)
+				return TV{term: fr.load(st, l), typ: l.resultType(), loc: l}, true
 			}
 		}
 		return TV{}, false
 	}
+	env.resolve = fvResolve
 	for _, c := range fc.Requires {
 		vc.assume(fr.evalClause(c, env, "requires"))
 	}
@@ -391,17 +392,8 @@ func (eng *Engine) translate(unit, mode string, fn *ssa.Function, fc *FuncContra
 	for ri, r := range fr.rets {
 		penv := fr.newEnv(r.st, entry)
 		fr.bindParams(penv)
-		penv.resolve = env.resolve
+		penv.resolve = fvResolve
 		bindResults(penv, fn, r.results)
-		penv.resolve = func(name string) (TV, bool) {
-			for _, fv := range fn.FreeVars {
-				if fv.Name() == name {
-					l := fr.locOf(r.st, "true", fv, false, token.NoPos)
-					return TV{term: fr.load(r.st, l), typ: l.resultType(), loc: l}, true
-				}
-			}
-			return TV{}, false
-		}
 		for k, c := range fc.Ensures {
 			t := fr.evalGoal(c, penv, "ensures")
 			label := c.Label
